@@ -12,7 +12,7 @@ SP = importlib.import_module('pdb2sql.superpose')     # the package re-exports t
 ID = 'C13'
 LEVEL = 'proof'
 CLUSTER = 'G'
-GEN_UNITS = ['Consts', 'data2pdb_line', '_format_atomname', '_format_xyz', 'record_loop', 'rotate', '_format_pdb_linelength']
+GEN_UNITS = ['Consts', 'data2pdb_line', '_format_atomname', '_format_xyz', 'record_loop', 'rotate', '_format_pdb_linelength', 'superpose_selection', 'get_trans_vect']
 MODELS = ['Model.SupDb.superpose', 'Model.SupDb.getIntersection', 'Model.superposeSelection']
 RULE = ('target = synthetic two-chain complex (complexgen: 3-12 residues per chain, side chains, optional hydrogens, all numbering styles); mobile = '
         'target jittered / rigidly displaced (random rotation + translation, rounded to the text precision; or lattice rotation + millesimal '
